@@ -44,7 +44,14 @@ TRUSTED = [
     "hand-written models lean/SyneTune/Model/{HB,SearcherState}.lean tied to /repo by the hb stream run with the real "
     "GPMultiFidelitySearcher / HyperTune searcher (state_transformer.state read after every event)",
     "Python harness harness/streams/hb.py",
-    "num_init_random is set huge so that no surrogate fit runs: the data bookkeeping is identical, the numerics are not exercised",
+    "num_init_random is set huge so that no surrogate fit runs: the data bookkeeping is identical, the numerics are not exercised "
+    "(hb stream only; the monitor-only streams below run with num_init_random 2-3, the surrogate model IS fitted there)",
+    "monitor-only streams `dyhpo` (HyperbandScheduler(type='dyhpo', searcher='dyhpo'), inner MyGPMultiFidelitySearcher) and `syncgp` "
+    "(SynchronousGeometricHyperbandScheduler / GeometricDifferentialEvolutionHyperbandScheduler with searcher='bayesopt'): decided on "
+    "the real code by the monitor `mf_monitor` (state_transformer.state read after every event); there is NO Lean model of DyHPO / of "
+    "the synchronous schedulers' searcher glue, so for these the evidence is testing of the real code, not proof. The milestone / "
+    "resume level of a run is read from the scheduler (`_running`, `_trial_to_pending_slot`, `level_to_prev_level`): the data-policy "
+    "rule is stated relative to the scheduler's own notion of the run",
 ]
 ASSUMPTIONS = [
     "workers report consecutive resource levels within a run (a resumed run starts at resume_from+1 with checkpointing, at 1 without)",
@@ -52,11 +59,24 @@ ASSUMPTIONS = [
     "operation contract OpOK of Props/C14Comp.lean: on_trial_remove only for trials the scheduler does not consider running "
     "(the Tuner calls it right after a STOP/PAUSE answer; externally stopped trials are signalled by on_trial_error), "
     "on_trial_complete with the last result reported; both are what the scripted worker pool of streams/hb.py does",
+    "monitor-only streams: same worker contract (consecutive levels; a run ends with the PAUSE/STOP answer, a failure, or - dyhpo only - "
+    "a script that ends by itself after at least one report, signalled by on_trial_complete with the last result as the Tuner does). "
+    "The synchronous schedulers answer PAUSE/STOP at the milestone of every run, so the Tuner never calls their on_trial_complete; a "
+    "script ending before its milestone is outside their contract ('Training script must not skip rung levels') and is not generated. "
+    "DEHB runs with the maximum number of brackets (suggest() hangs / raises after failures with few brackets: known findings of C13); "
+    "a scheduler call that raises or does not return ends the scenario and is counted in the histogram, it is not a C14 finding",
 ]
 RULE = ("cases: real HyperbandScheduler(type in stopping, promotion) with searcher bayesopt / hypertune, every searcher_data "
         "policy, register_pending_myopic on/off, 1-4 brackets, checkpointing on/off, failures and completions; distinct by "
         "sha256 of the spec; non-trivial iff at least one pending entry was dropped by an observation and at least one trial "
-        "paused/stopped/failed while others had pending entries")
+        "paused/stopped/failed while others had pending entries. "
+        "Monitor-only cases (no Lean model lines): kind dyhpo = real HyperbandScheduler(type=dyhpo, searcher=dyhpo), linear or geometric "
+        "rung levels, every searcher_data policy, register_pending_myopic on/off, probability_sh 0-0.5, checkpointing on/off (re-reported "
+        "levels carry fresh values), failures p 0-0.2, scripts ending early; kind syncgp = real SynchronousGeometricHyperbandScheduler / "
+        "GeometricDifferentialEvolutionHyperbandScheduler with searcher=bayesopt, searcher_data rungs/all, with/without "
+        "max_resource_attr, checkpointing on/off, failures p 0-0.2; both modes, 1-4 workers, num_init_random 2-3 so that the surrogate "
+        "model is fitted; these are non-trivial iff the model-based phase was reached (>=1 surrogate fit) and at least one pause/stop "
+        "and at least one failure or resume happened")
 
 
 def gen_cases(rng, tier):
@@ -78,6 +98,8 @@ def gen_cases(rng, tier):
             "p_fail": rng.choice([0, 0.03, 0.08]),
             "p_early": rng.choice([0, 0.05]),
         }
+    # monitor-only streams (appended: the hb cases above stay the same for a given seed)
+    yield from gen_mf_cases(rng, tier)
 
 
 def corpus():
@@ -193,6 +215,8 @@ def data_monitor(spec, lines, events):
 
 
 def run_impl(spec):
+    if spec.get("kind") in ("dyhpo", "syncgp"):
+        return run_mf(spec)
     t = hb.run_scenario(spec)
     sched = t.pop("sched")
     ev = t["events"]
@@ -271,3 +295,500 @@ def extra(ctx):
     bad = [r["lean"] for r in res if not r["reproduced_on_real_code"]]
     if bad:
         raise RuntimeError(f"Lean counterexample not reproduced by the real code (model and code disagree outside the contract): {bad}")
+
+
+# ---------------------------------------------------------------------------------
+# Monitor-only streams `dyhpo` and `syncgp` (no Lean model lines: `"lines": []`).
+#
+# The real scheduler is driven through its public API (suggest / on_trial_add / on_trial_result /
+# on_trial_remove / on_trial_complete / on_trial_error) by a scripted worker pool; after EVERY event the data
+# state of the GP searcher (`state_transformer.state`: trials_evaluations, pending_evaluations, failed_trials)
+# is read and `mf_monitor` checks the clauses of C14 on it directly.  The surrogate model IS fitted in these
+# cases (num_init_random 2-3, cheap optimiser settings).
+#
+# Data-policy rules, read from the code (the milestone m and the resume level f of a run are the scheduler's
+# own: `_running[t]` of the rung system for dyhpo, `_trial_to_pending_slot[t]` + `level_to_prev_level` for the
+# synchronous schedulers):
+#
+#  dyhpo  (HyperbandScheduler.on_trial_result / _update_searcher, PromotionRungSystem.on_task_report; 1 bracket)
+#    a report (t, r) of a run resumed from rung level f with r <= f is dropped (`ignore_data`: a resumed trial
+#    without checkpointing re-reports old levels).  Every other report is *accepted* and then
+#      searcher_data = "rungs"          stored iff r is a rung level or r = max_t
+#      searcher_data = "all"            stored
+#      searcher_data = "rungs_and_last" stored; the trial's previously accepted level is removed again unless it
+#                                       was the milestone of its run (`keep_case = milestone_reached`)
+#    on_trial_complete (script ended by itself) passes the last result once more iff its level is above the
+#    largest level stored so far for the trial (`largest_update_resource`, only if there is one): with "rungs"
+#    the final, possibly non-rung, level of a completed trial MAY therefore be stored; the monitor allows it
+#    and does not require it.
+#
+#  syncgp, SynchronousHyperbandScheduler.on_trial_result:
+#    a run of trial t goes from the previous rung level f of its bracket (0 for a new trial) to the milestone m
+#    (the rung level of its slot).  A report (t, r) is passed to the searcher iff r > f ("the condition
+#    resource > prev_level ensures that the searcher does not receive multiple reports for the same
+#    resource"), with update = (searcher_data == "all" or r == m).  So
+#      searcher_data = "rungs"   stored iff r = m: the milestones the trial reached IN ITS OWN BRACKET (a level
+#                                that is a rung level of another bracket only is not stored)
+#      searcher_data = "all"     stored iff f < r <= m
+#    Pending: register_pending(t, m) for a NEW trial in _suggest only (never for a resumed one); dropped by the
+#    observation at m or by on_trial_error -> evaluation_failed.
+#
+#  syncgp, DifferentialEvolutionHyperbandScheduler.on_trial_result: the same rule (f = level_to_prev_level of the
+#    slot's bracket, also for the NEW trial ids DEHB starts from scratch at higher rungs: their re-computed levels
+#    r <= f are not passed).  Before commit 5a8c545 of /repo the call of searcher.on_trial_result sat inside
+#    `if resource >= milestone:`, so only r = m was stored for BOTH values of searcher_data; that deviation has its
+#    own signature `c14:syncgp-dehb-all-stores-only-milestones` (known finding, fixed): quiet on the repaired tree,
+#    fires again if the defect returns.
+
+import random as _random
+import signal as _signal
+import threading as _threading
+
+from framework import frac_str
+
+MF_METRIC, MF_RES, MF_MAXATTR = "loss", "epoch", "epochs"
+MF_CALL_TIMEOUT = 10.0
+MF_SIGS = ("observation-twice", "observation-replaced", "observation-not-reported-value", "observation-unreported-level",
+           "policy-levels", "pending-of-trial-not-running", "pending-at-observed-level", "pending-not-above-last-report",
+           "pending-above-milestone", "pending-duplicate", "scheduler-raised")
+
+
+class _MfTimeout(Exception):
+    pass
+
+
+def _mf_raise_timeout(*a):
+    raise _MfTimeout()
+
+
+def gen_mf_cases(rng, tier):
+    quick = tier == "quick"
+    n = 8 if quick else 80
+    for _ in range(n):
+        c = {"mode": rng.choice(["min", "max"])}
+        if rng.random() < 0.75:
+            # linearly spaced rung levels (grace_period == rung_increment): the recommended DyHPO setup
+            inc = rng.choice([1, 1, 2, 3])
+            c.update(grace_period=inc, rung_increment=inc, max_t=inc * rng.randint(2, 5) + rng.choice([0, 0, 1]))
+        else:
+            c.update(grace_period=1, reduction_factor=rng.choice([2, 3]), max_t=rng.choice([4, 8, 9, 10]))
+        c["searcher_data"] = rng.choice(["rungs", "all", "all", "rungs_and_last"])
+        c["register_pending_myopic"] = rng.random() < 0.3
+        c["max_resource_attr"] = rng.random() < 0.5
+        c["probability_sh"] = rng.choice([0, 0.25, 0.25, 0.5])
+        c["random_seed"] = rng.randrange(1000)
+        yield {
+            "kind": "dyhpo", "ctor": c,
+            "search_options": {"num_init_random": rng.choice([2, 3]), "opt_maxiter": 5, "opt_nstarts": 1,
+                               "num_init_candidates": rng.choice([3, 5]), "debug_log": False},
+            "seed": rng.randrange(10 ** 9),
+            "n_workers": rng.randint(1, 4),
+            "max_events": rng.choice([40, 70]) if quick else rng.choice([60, 100, 140]),
+            "checkpointing": rng.random() < 0.5,
+            "p_fail": rng.choice([0, 0.05, 0.1, 0.2]),
+            "p_early": rng.choice([0, 0, 0.05]),
+        }
+    for _ in range(n):
+        cls = rng.choice(["hyperband", "hyperband", "hyperband", "dehb"])
+        grace, rf, maxr = rng.choice([(1, 2, 4), (1, 2, 4), (1, 3, 9), (1, 2, 8), (2, 2, 8), (1, 3, 10), (1, 4, 16)])
+        c = {"cls": cls, "mode": rng.choice(["min", "max"]), "grace_period": grace, "reduction_factor": rf,
+             "max_resource_level": maxr, "searcher_data": rng.choice(["rungs", "all"]),
+             "max_resource_attr": rng.random() < 0.5, "random_seed": rng.randrange(1000)}
+        if cls == "hyperband":
+            c["brackets"] = rng.choice([None, None, 1, 2])
+        yield {
+            "kind": "syncgp", "ctor": c,
+            "search_options": {"num_init_random": rng.choice([2, 3]), "opt_maxiter": 5, "opt_nstarts": 1,
+                               "num_init_candidates": rng.choice([3, 5]), "debug_log": False},
+            "seed": rng.randrange(10 ** 9),
+            "n_workers": rng.randint(1, 4),
+            "max_events": rng.choice([50, 80]) if quick else rng.choice([60, 100, 140]),
+            "checkpointing": rng.random() < 0.5,
+            "p_fail": rng.choice([0, 0.05, 0.1, 0.2]),
+        }
+
+
+def _mf_make(spec):
+    """the REAL scheduler of the case and its GP searcher (the object whose state_transformer is read)"""
+    import logging
+    logging.disable(logging.CRITICAL)
+    from syne_tune.config_space import uniform
+    c = spec["ctor"]
+    cs = {"x": uniform(0, 1), "y": uniform(0, 1)}
+    args = dict(metric=MF_METRIC, mode=c["mode"], resource_attr=MF_RES, searcher_data=c["searcher_data"],
+                random_seed=c["random_seed"], search_options=dict(spec["search_options"]),
+                grace_period=c["grace_period"])
+    if spec["kind"] == "dyhpo":
+        from syne_tune.optimizer.schedulers.hyperband import HyperbandScheduler
+        args.update(searcher="dyhpo", type="dyhpo", register_pending_myopic=c["register_pending_myopic"],
+                    rung_system_kwargs={"probability_sh": c["probability_sh"]})
+        if "rung_increment" in c:
+            args["rung_increment"] = c["rung_increment"]
+        else:
+            args["reduction_factor"] = c["reduction_factor"]
+        if c["max_resource_attr"]:
+            cs[MF_MAXATTR] = c["max_t"]
+            args["max_resource_attr"] = MF_MAXATTR
+        else:
+            args["max_t"] = c["max_t"]
+        sch = HyperbandScheduler(cs, **args)
+        sch._initialize_searcher()
+        gp = sch.searcher._searcher_int  # DynamicHPOSearcher delegates all data calls to this GP searcher
+        header = {"rung_levels": [int(x) for x in sch.rung_levels], "max_t": int(sch.max_t)}
+    else:
+        from syne_tune.optimizer.schedulers.synchronous.hyperband_impl import (
+            SynchronousGeometricHyperbandScheduler, GeometricDifferentialEvolutionHyperbandScheduler)
+        args.update(searcher="bayesopt", reduction_factor=c["reduction_factor"])
+        if c.get("brackets"):
+            args["brackets"] = c["brackets"]
+        if c["max_resource_attr"]:
+            cs[MF_MAXATTR] = c["max_resource_level"]
+            args["max_resource_attr"] = MF_MAXATTR
+        else:
+            args["max_resource_level"] = c["max_resource_level"]
+        klass = GeometricDifferentialEvolutionHyperbandScheduler if c["cls"] == "dehb" else SynchronousGeometricHyperbandScheduler
+        sch = klass(cs, **args)
+        sch._initialize_searcher()
+        gp = sch.searcher
+        header = {"bracket_rungs": [[[int(a), int(b)] for a, b in br] for br in sch.bracket_manager.bracket_rungs],
+                  "max_t": int(sch.max_resource_level)}
+    return sch, gp, header
+
+
+def _mf_state(gp):
+    """the searcher's data state, values as exact rationals"""
+    from syne_tune.optimizer.schedulers.searchers.bayesopt.datatypes.common import INTERNAL_METRIC_NAME
+    st = gp.state_transformer.state
+    obs = []
+    for e in st.trials_evaluations:
+        ms = e.metrics.get(INTERNAL_METRIC_NAME, {})
+        if not isinstance(ms, dict):
+            ms = {"?": ms}
+        for k, v in ms.items():
+            obs.append([str(e.trial_id), str(k), frac_str(float(v))])
+    return {"obs": obs,
+            "pending": [[str(p.trial_id), p.resource if p.resource is None else int(p.resource)] for p in st.pending_evaluations],
+            "failed": [str(x) for x in st.failed_trials]}
+
+
+def _mf_run_info(spec, sch, tid):
+    """milestone m and resume level f of the run of trial `tid` that was just started / resumed (the scheduler's own)"""
+    if spec["kind"] == "dyhpo":
+        info = None
+        for rs in sch.terminator._rung_systems:
+            info = rs._running.get(str(tid), info)
+        f = info["resume_from"]
+        return {"m": int(info["milestone"]), "f": 0 if f is None else int(f)}
+    slot = sch._trial_to_pending_slot[tid]
+    if spec["ctor"]["cls"] == "dehb":
+        b, m = slot.bracket_id, slot.level
+    else:
+        b, m = slot[0], slot[1].level
+    return {"m": int(m), "f": int(sch.bracket_manager.level_to_prev_level(b, m)), "bracket": int(b)}
+
+
+def mf_metric(seed, tid, r, run):
+    """multiple of 1/1024 in [0, 1): `1 - v` is exact; a level re-reported by a later run (no checkpointing)
+    carries a different value than in the earlier run"""
+    return _random.Random(seed * 7919 + tid * 104729 + r * 131 + run * 17).randrange(0, 1024) / 1024.0
+
+
+def run_mf(spec):
+    from syne_tune.backend.trial_status import Trial
+    kind = spec["kind"]
+    rng = _random.Random(spec["seed"])
+    sch, gp, header = _mf_make(spec)
+    fits = [0]
+    stf = gp.state_transformer
+    orig_fit = stf.fit
+
+    def counting_fit(*a, **kw):
+        fits[0] += 1
+        return orig_fit(*a, **kw)
+
+    stf.fit = counting_fit  # pass-through counter: was the model-based phase reached?
+    events = []
+    hist = {}
+
+    def count(k, n=1):
+        hist[f"{kind}:{k}"] = hist.get(f"{kind}:{k}", 0) + n
+
+    def guarded(what, f, *a):
+        use_alarm = _threading.current_thread() is _threading.main_thread()
+        if use_alarm:
+            old = _signal.signal(_signal.SIGALRM, _mf_raise_timeout)
+            _signal.setitimer(_signal.ITIMER_REAL, MF_CALL_TIMEOUT)
+        try:
+            return True, f(*a)
+        except Exception as e:  # noqa
+            events.append({"ev": "raised", "call": what, "err": "Timeout" if isinstance(e, _MfTimeout) else type(e).__name__,
+                           "msg": str(e)[:300], "state": None})
+            return False, None
+        finally:
+            if use_alarm:
+                _signal.setitimer(_signal.ITIMER_REAL, 0)
+                _signal.signal(_signal.SIGALRM, old)
+
+    workers = {}      # trial -> {"next": next level to report, "run": run index, "reports": reports in this run, "resumed": bool}
+    trials = {}
+    nruns = {}
+    paused_at = {}    # trial -> level of its last PAUSE answer
+    last_result = {}  # trial -> last result delivered (what the Tuner hands to on_trial_complete)
+    failed = set()
+    next_id = 0
+    for _ in range(spec["max_events"]):
+        acts = []
+        if len(workers) < spec["n_workers"]:
+            acts += ["suggest"] * 2
+        if workers:
+            acts += ["report"] * 5
+            if spec.get("p_fail", 0) > 0 and rng.random() < spec["p_fail"]:
+                acts = ["fail"]
+            elif spec.get("p_early", 0) > 0 and rng.random() < spec["p_early"] and any(t in last_result for t in workers):
+                acts = ["end"]
+        a = rng.choice(acts)
+        if a == "suggest":
+            ok, sg = guarded("suggest", sch.suggest, next_id)
+            if not ok:
+                break
+            if sg is None:
+                events.append({"ev": "no-suggestion", "state": _mf_state(gp)})
+                count("no-suggestion")
+                if not workers:
+                    break
+                continue
+            if sg.spawn_new_trial_id:
+                tid = next_id
+                next_id += 1
+                trials[tid] = Trial(trial_id=tid, config=sg.config, creation_time=hb.EPOCH0)
+                ok, _x = guarded("on_trial_add", sch.on_trial_add, trials[tid])
+                if not ok:
+                    break
+                nruns[tid] = 1
+                workers[tid] = {"next": 1, "run": 1, "reports": 0, "resumed": False}
+                ev = {"ev": "start", "trial": tid}
+                count("start")
+            else:
+                tid = int(sg.checkpoint_trial_id)
+                if sg.config is not None:
+                    trials[tid] = Trial(trial_id=tid, config=sg.config, creation_time=hb.EPOCH0)
+                nruns[tid] = nruns.get(tid, 0) + 1
+                # with checkpointing the new run continues after the level the trial was paused at; a trial that
+                # failed has no checkpoint at a rung level (synchronous brackets resume failed trials: known
+                # finding c05:failed-trial-promoted) and starts from scratch, like every run without checkpointing
+                start_r = paused_at[tid] + 1 if (spec["checkpointing"] and tid in paused_at and tid not in failed) else 1
+                ev = {"ev": "resume", "trial": tid, "was_failed": tid in failed, "was_running": tid in workers}
+                workers[tid] = {"next": start_r, "run": nruns[tid], "reports": 0, "resumed": True}
+                count("resume")
+                if tid in failed:
+                    count("resume-of-failed-trial")
+                    failed.discard(tid)
+            ev.update(_mf_run_info(spec, sch, tid))
+            if sg.config is not None and MF_MAXATTR in sg.config and spec["ctor"]["max_resource_attr"]:
+                ev["cfg_milestone"] = int(sg.config[MF_MAXATTR])
+            ev["state"] = _mf_state(gp)
+            events.append(ev)
+        elif a == "report":
+            tid = rng.choice(sorted(workers))
+            w = workers[tid]
+            r = w["next"]
+            v = mf_metric(spec["seed"], tid, r, w["run"])
+            res = {MF_METRIC: v, MF_RES: r}
+            ok, d = guarded("on_trial_result", sch.on_trial_result, trials[tid], dict(res))
+            if not ok:
+                break
+            w["next"] += 1
+            w["reports"] += 1
+            last_result[tid] = res
+            events.append({"ev": "result", "trial": tid, "resource": r, "metric": v, "decision": d, "state": _mf_state(gp)})
+            count("result")
+            if d != "CONTINUE":
+                count("pause" if d == "PAUSE" else "stop")
+                if d == "PAUSE":
+                    paused_at[tid] = r
+                del workers[tid]
+                ok, _x = guarded("on_trial_remove", sch.on_trial_remove, trials[tid])
+                if not ok:
+                    break
+                events.append({"ev": "remove", "trial": tid, "state": _mf_state(gp)})
+        elif a == "fail":
+            tid = rng.choice(sorted(workers))
+            w = workers.pop(tid)
+            failed.add(tid)
+            count("fail:" + ("before-first-report" if (w["reports"] == 0 and not w["resumed"]) else
+                             "after-resume-before-report" if w["reports"] == 0 else
+                             "after-resume-between-reports" if w["resumed"] else "between-reports"))
+            ok, _x = guarded("on_trial_error", sch.on_trial_error, trials[tid])
+            if not ok:
+                break
+            events.append({"ev": "error", "trial": tid, "state": _mf_state(gp)})
+        elif a == "end":
+            # the training script ends by itself: the Tuner calls on_trial_complete with the last result it has seen
+            tid = rng.choice(sorted(t for t in workers if t in last_result))
+            del workers[tid]
+            res = last_result[tid]
+            ok, _x = guarded("on_trial_complete", sch.on_trial_complete, trials[tid], dict(res))
+            if not ok:
+                break
+            events.append({"ev": "complete", "trial": tid, "resource": res[MF_RES], "metric": res[MF_METRIC], "state": _mf_state(gp)})
+            count("complete")
+    mon = mf_monitor(spec, header, events)
+    count("cases")
+    count("events", len(events))
+    count("surrogate-fits", fits[0])
+    count("model-based-phase-reached", 1 if fits[0] else 0)
+    c = spec["ctor"]
+    count("policy:" + c["searcher_data"])
+    count("mode:" + c["mode"])
+    count("max_resource_attr:" + str(bool(c["max_resource_attr"])))
+    count("checkpointing:" + str(bool(spec["checkpointing"])))
+    if kind == "syncgp":
+        count("cls:" + c["cls"])
+    for e in events:
+        if e["ev"] == "raised":
+            count(f"scheduler-raised:{c.get('cls', 'dyhpo')}:{e['call']}:{e['err']}")
+    ends = hist.get(f"{kind}:pause", 0) + hist.get(f"{kind}:stop", 0)
+    fails = sum(v for k, v in hist.items() if k.startswith(f"{kind}:fail:"))
+    nt = fits[0] > 0 and ends > 0 and (fails > 0 or hist.get(f"{kind}:resume", 0) > 0)
+    count("nontrivial", 1 if nt else 0)
+    return {"lines": [], "monitor": mon, "meta": {"hist": hist, "nontrivial": bool(nt)}}
+
+
+def _mf_history(events, upto):
+    """compact operation list up to (and including) event `upto`: the reproducing history of a finding"""
+    out = []
+    for e in events[:upto + 1]:
+        k = e["ev"]
+        if k in ("start", "resume"):
+            out.append(f"{k} {e['trial']} (from {e['f']} to {e['m']})")
+        elif k == "result":
+            out.append(f"result {e['trial']} level {e['resource']} metric {e['metric']} -> {e['decision']}")
+        elif k == "raised":
+            out.append(f"{e['call']} raised {e['err']}: {e['msg']}")
+        else:
+            out.append(f"{k} {e.get('trial', '')}".strip())
+    return out[-60:]
+
+
+def mf_monitor(spec, header, events):
+    """direct reading of C14 on the searcher's data state after every event (kinds dyhpo / syncgp)"""
+    kind = spec["kind"]
+    c = spec["ctor"]
+    mode, policy = c["mode"], c["searcher_data"]
+    dehb = kind == "syncgp" and c["cls"] == "dehb"
+    max_t = header["max_t"]
+    rung_levels = set(header.get("rung_levels", []))
+    out, seen = [], set()
+
+    def find(sig, what, i):
+        sig = f"c14:{kind}-{sig}"
+        if sig in seen:
+            return
+        seen.add(sig)
+        e = {k: v for k, v in events[i].items() if k != "state"}
+        out.append({"signature": sig, "what": what,
+                    "detail": {"event": e, "state_after": events[i].get("state"), "history": _mf_history(events, i)}})
+
+    running = {}       # trial -> {"f": resume level, "m": milestone, "last": last level reported in this run}
+    reported = {}      # (trial, level) -> values reported at that level while the trial was running (min convention)
+    expected = {}      # trial -> levels the data policy selects among the accepted reports
+    optional = {}      # trial -> levels that may be stored in addition (final result passed by on_trial_complete)
+    milestones = {}    # dehb: trial -> milestones reached (all that the code before 5a8c545 stored, for both policies)
+    last_acc = {}      # rungs_and_last: trial -> (last accepted level, keep)
+    prev_obs = {}
+    for i, ev in enumerate(events):
+        k = ev["ev"]
+        if k == "raised":
+            # DEHB raising / hanging in suggest after failures is the known finding of C13, not judged here
+            if not dehb:
+                find("scheduler-raised", f"{ev['call']} raised {ev['err']}: {ev['msg']}", i)
+            break
+        t = str(ev["trial"]) if "trial" in ev else None
+        if k in ("start", "resume"):
+            running[t] = {"f": ev["f"], "m": ev["m"], "last": 0}
+        elif k == "result":
+            r, v = ev["resource"], Fraction(ev["metric"])
+            run = running.get(t)
+            if run is not None:
+                run["last"] = max(run["last"], r)
+                reported.setdefault((t, str(r)), []).append(v if mode == "min" else 1 - v)
+                f, m = run["f"], run["m"]
+                if kind == "dyhpo":
+                    if r > f:  # accepted (r <= f: re-reported level of a resumed run, `ignore_data`)
+                        exp = expected.setdefault(t, set())
+                        if policy == "all":
+                            exp.add(r)
+                        elif policy == "rungs":
+                            if r in rung_levels or r == max_t:
+                                exp.add(r)
+                        else:  # rungs_and_last
+                            if t in last_acc and not last_acc[t][1]:
+                                exp.discard(last_acc[t][0])
+                            exp.add(r)
+                            last_acc[t] = (r, r == m or r == max_t)
+                else:
+                    if f < r <= m and (policy == "all" or r == m):
+                        expected.setdefault(t, set()).add(r)
+                    if r == m:
+                        milestones.setdefault(t, set()).add(r)
+                if ev["decision"] != "CONTINUE":
+                    running.pop(t, None)
+        elif k == "complete":
+            optional.setdefault(t, set()).add(ev["resource"])
+            running.pop(t, None)
+        elif k == "error":
+            running.pop(t, None)
+        st = ev.get("state")
+        if st is None:
+            continue
+        # (a) one observation per (trial, level), equal to a value the trial reported there (min convention)
+        obs = {}
+        for tt, lv, val in st["obs"]:
+            if (tt, lv) in obs:
+                find("observation-twice", f"two observations for trial {tt} level {lv}", i)
+            obs[(tt, lv)] = Fraction(val)
+        for key, val in obs.items():
+            vals = reported.get(key)
+            if not vals:
+                find("observation-unreported-level", f"observation for trial {key[0]} level {key[1]} = {val}, but the trial "
+                     f"has not reported that level", i)
+            elif val not in vals:
+                find("observation-not-reported-value", f"observation for trial {key[0]} level {key[1]} is {val}, reported values "
+                     f"(min convention) {[str(x) for x in vals]}", i)
+            if key in prev_obs and prev_obs[key] != val:
+                find("observation-replaced", f"observation for trial {key[0]} level {key[1]} was {prev_obs[key]} and is now {val}: "
+                     f"the level was fed to the model a second time", i)
+        prev_obs = obs
+        # (b) exactly the levels the data policy selects
+        have = {}
+        for (tt, lv) in obs:
+            have.setdefault(tt, set()).add(int(lv) if lv.lstrip("-").isdigit() else lv)
+        for tt in sorted(set(have) | set(expected), key=lambda x: (len(x), x)):
+            h, e_, o_ = have.get(tt, set()), expected.get(tt, set()), optional.get(tt, set())
+            if e_ <= h <= (e_ | o_):
+                continue
+            if dehb and policy == "all" and h == milestones.get(tt, set()):
+                find("dehb-all-stores-only-milestones", f"DEHB with searcher_data=all: trial {tt} has observations at levels "
+                     f"{sorted(h)} only (its milestones), the levels of its runs that searcher_data=all selects are {sorted(e_)}", i)
+            else:
+                find("policy-levels", f"searcher_data={policy}: trial {tt} has observations at levels {sorted(h, key=str)}, the policy "
+                     f"selects {sorted(e_)}" + (f" (optional {sorted(o_)})" if o_ else "") + " of the levels it reported", i)
+            break
+        # (c) pending evaluations: running trial, above its last report, not above the milestone, not observed
+        for tt, lv in st["pending"]:
+            run = running.get(tt)
+            if run is None:
+                find("pending-of-trial-not-running", f"pending evaluation (trial {tt}, level {lv}) although trial {tt} is not "
+                     f"running (after {k} of trial {ev.get('trial')})", i)
+            else:
+                if lv is None or lv <= max(run["f"], run["last"]):
+                    find("pending-not-above-last-report", f"pending (trial {tt}, level {lv}) although trial {tt} was resumed from "
+                         f"level {run['f']} and last reported level {run['last']}", i)
+                elif lv > run["m"]:
+                    find("pending-above-milestone", f"pending (trial {tt}, level {lv}) above the milestone {run['m']} trial {tt} "
+                         f"is running to", i)
+            if (tt, str(lv)) in obs:
+                find("pending-at-observed-level", f"pending (trial {tt}, level {lv}) already observed", i)
+        if len(st["pending"]) != len({tuple(p) for p in st["pending"]}):
+            find("pending-duplicate", "duplicate pending entry", i)
+    return out
